@@ -1,6 +1,6 @@
 #!/usr/bin/env python3
 """Re-run every seeded change under /verif/seeded against the checks listed in its meta.json and write DETECTION.md.
-Applies each patch to /repo, runs the checks (quick tier), reverts. /repo must be clean."""
+Each patch is applied to a private scratch worktree of /repo (checks run with VF_REPO_SRC / VF_OUT), several at a time."""
 import glob, json, os, subprocess, sys, time
 
 V = "/verif"
@@ -10,47 +10,52 @@ def sh(cmd, **kw):
     return subprocess.run(cmd, shell=True, capture_output=True, text=True, **kw)
 
 
-def main():
-    if sh("git -C /repo status --porcelain").stdout.strip():
-        print("repo not clean"); return 2
-    only = sys.argv[1:]
-    rows = []
-    for d in sorted(glob.glob(os.path.join(V, "seeded", "*"))):
-        name = os.path.basename(d)
-        if only and not any(name.startswith(o) for o in only):
-            continue
-        meta = json.load(open(os.path.join(d, "meta.json")))
-        patch = os.path.join(d, "patch.diff")
-        demo = os.path.join(d, "demo.py")
-        env = "PYTHONWARNINGS=ignore PYTHONPATH=/repo/src"
-        hasdemo = os.path.exists(demo)
+def one(d):
+    """one seeded change on a private scratch worktree of /repo (VF_REPO_SRC / VF_OUT): /repo and /verif/evidence stay untouched"""
+    name = os.path.basename(d)
+    meta = json.load(open(os.path.join(d, "meta.json")))
+    patch = os.path.join(d, "patch.diff")
+    demo = os.path.join(d, "demo.py")
+    hasdemo = os.path.exists(demo)
+    import tempfile
+    w = tempfile.mkdtemp(prefix="vfdet.", dir="/dev/shm" if os.path.isdir("/dev/shm") else "/var/tmp")
+    os.rmdir(w)
+    if sh("git -C /repo worktree add --detach %s HEAD" % w).returncode != 0:
+        return (name, meta, "cannot make a scratch worktree", {}, "-", None)
+    try:
+        env = "PYTHONWARNINGS=ignore PYTHONPATH=%s/src" % w
         clean = sh("%s timeout 300 /venv/bin/python %s" % (env, demo)).returncode if hasdemo else "-"
-        if sh("git -C /repo apply " + patch).returncode != 0:
-            rows.append((name, meta, "patch does not apply to the current tree", {}, clean, None)); continue
-        try:
-            dirty = sh("%s timeout 300 /venv/bin/python %s" % (env, demo)).returncode if hasdemo else "-"
-            res = {}
-            for c in meta.get("detected_by", []) or [meta["breaks"]]:
-                t0 = time.time()
-                ev = os.path.join(V, "evidence", c + ".json")       # evidence files describe the unchanged tree: put them back
-                keep = open(ev, "rb").read() if os.path.exists(ev) else None
-                r = sh("cd /verif && ./check %s --tier quick" % c)
-                if keep is not None:
-                    open(ev, "wb").write(keep)
-                elif os.path.exists(ev):
-                    os.remove(ev)
-                keys = [l.split("key=")[1].split()[0] for l in r.stdout.splitlines() if l.startswith("VIOLATION") and "key=" in l]
-                res[c] = (r.returncode, keys[:2], round(time.time() - t0, 1))
-        finally:
-            sh("git -C /repo checkout -- .")
-        rows.append((name, meta, None, res, clean, dirty))
+        if sh("git -C %s apply %s" % (w, patch)).returncode != 0:
+            return (name, meta, "patch does not apply to the current tree", {}, clean, None)
+        dirty = sh("%s timeout 300 /venv/bin/python %s" % (env, demo)).returncode if hasdemo else "-"
+        res = {}
+        for c in meta.get("detected_by", []) or [meta["breaks"]]:
+            t0 = time.time()
+            r = sh("cd /verif && VF_REPO_SRC=%s/src VF_OUT=%s/vfout VF_PROCS=%d ./check %s --tier quick" % (w, w, PROCS, c))
+            keys = [l.split("key=")[1].split()[0] for l in r.stdout.splitlines() if l.startswith("VIOLATION") and "key=" in l]
+            res[c] = (r.returncode, keys[:2], round(time.time() - t0, 1))
         print(name, clean, dirty, res, flush=True)
+        return (name, meta, None, res, clean, dirty)
+    finally:
+        sh("git -C /repo worktree remove --force %s; rm -rf %s" % (w, w))
+
+
+PAR, PROCS = 5, 4
+
+
+def main():
+    from concurrent.futures import ThreadPoolExecutor
+    only = sys.argv[1:]
+    dirs = [d for d in sorted(glob.glob(os.path.join(V, "seeded", "*")))
+            if not only or any(os.path.basename(d).startswith(o) for o in only)]
+    with ThreadPoolExecutor(PAR) as ex:
+        rows = list(ex.map(one, dirs))
     sh("rm -rf /tmp/hio* /root/hio")
     with open(os.path.join(V, "DETECTION.md"), "w") as f:
         f.write("# Seeded changes and the checks that catch them\n\n"
                 "Each row: a change to ioflo/hio that breaks one property (written by an independent sub-agent from the text of the property only, "
                 "with a demo script, or by hand without one: demo column '-'; see DESIGN.md section 14), re-verified here: the demo exits 0 on the clean tree and non-zero with the patch; "
-                "the patch is applied to /repo, the listed checks run at quick tier, the patch is reverted. "
+                "the patch is applied to a scratch worktree of /repo, the listed checks run against it at quick tier. "
                 "`exit 1` = the check reports a VIOLATION. Regenerate with `python3 tools/detection.py`.\n\n"
                 "| Seeded change | Breaks | Needs | demo clean/patched | Check: exit, first keys, seconds | Note |\n|---|---|---|---|---|---|\n")
         for name, meta, err, res, clean, dirty in rows:
